@@ -1,0 +1,15 @@
+//go:build verif
+
+package fbb
+
+// Verification hooks for the message (de)serialisation checks. Add-only; compiled only with -tags verif.
+
+// VerifErr exposes the per-attachment parse error recorded by Message.ReadFrom.
+func (f *File) VerifErr() error { return f.err }
+
+// VerifSetRaw installs body and attachments as they are (no charset translation, no File headers),
+// so that a harness can build arbitrary message states.
+func (m *Message) VerifSetRaw(body []byte, files []*File) { m.body, m.files = body, files }
+
+// VerifBodyBytes returns the raw body bytes.
+func (m *Message) VerifBodyBytes() []byte { return m.body }
